@@ -30,6 +30,16 @@ pub fn to_bigint(data: &[u8]) -> Result<BigInt, InterpreterError> {
     Ok(BigInt::from_bytes_le(sign, &data))
 }
 
+/// Script truthiness: false is zero of any length, including negative zero (a final 0x80 byte); anything else is true.
+pub fn to_bool(data: &[u8]) -> bool {
+    for (i, byte) in data.iter().enumerate() {
+        if *byte != 0 {
+            return !(i == data.len() - 1 && *byte == 0x80);
+        }
+    }
+    false
+}
+
 impl ScriptStack for Vec<Vec<u8>> {
     fn push_bytes(&mut self, data: Vec<u8>) {
         self.push(data)
@@ -88,11 +98,7 @@ impl ScriptStack for Vec<Vec<u8>> {
     fn pop_bool(&mut self) -> Result<bool, InterpreterError> {
         let data = self.pop().ok_or(InterpreterError::EmptyStack)?;
 
-        if data.len() > 4 {
-            return Err(InterpreterError::TooLongForBool);
-        }
-
-        Ok(BigInt::from_signed_bytes_le(&data) >= BigInt::from_slice(num_bigint::Sign::Plus, &[1]))
+        Ok(to_bool(&data))
     }
 
     fn push_bool(&mut self, boolean: bool) -> Result<(), InterpreterError> {
